@@ -27,19 +27,20 @@ PROP = "C05"
 DRIVER_MODULES = ["PsutilModel.Model.C05Gen", "PsutilModel.Spec.C05", "PsutilModel.Spec.C05Stat"]
 NEEDS_EXT = True
 TRUSTED = [
-    "C05 world: a call sees (a) the table when the caller's identity is checked and ppid_map() runs, (b) a possibly different table for the per-child look-ups; kernel events happen between psutil's file reads, not inside one (DESIGN §4.6). parent()/parents() are modelled on a table that is constant during the call",
+    "C05 world: a call sees (a) the table when the caller's identity is checked and ppid_map() runs, (b) a possibly different table for the per-child look-ups; kernel events happen between psutil's file reads, not inside one (DESIGN §4.6). parent()/parents(): every look-up (identity check, own stat, Process(ppid)) of every step has its own world",
     "C05 times: create_time() is a float `starttime/CLOCK_TICKS + boot_time`; the model compares the integer starttime ticks. The harness checks on every run that this float map is strictly increasing over the tick range it uses",
     "C05 stat renderer (Spec/C05Stat.lean): transcription of the documented /proc/<pid>/stat layout; the Python renderer of the harness is checked byte-for-byte against it on every stat case",
-    "C05 errors: only NoSuchProcess (missing stat file) is modelled; AccessDenied/ZombieProcess out of children() belong to C03",
+    "C05 errors: a stat read is gone / unreadable (EACCES, injected at psutil's open_binary) / read; `Process(pid)` and the `create_time()` that follows are one look-up; the caller object is built on a readable stat; the ENOENT-then-zombie two-read race of wrap_exceptions (ZombieProcess) is not modelled (C03)",
+    "C05 parents() while the table changes: the worlds of each look-up are those the harness recorded at its hooks (construction of _pslinux.Process, _proc.ppid()); the equality of Model/C05Dyn with Model/C05 on static readable tables for parent()/parents() is tested on every such case (driver flag old_agrees), not proved",
 ]
 ASSUMPTIONS = [
-    "listed PIDs are unique and every listed PID has a readable stat file (a vanished process is a missing /proc/<pid>)",
+    "listed PIDs are unique; a vanished process is a missing /proc/<pid>; an unreadable stat file exists but its open raises EACCES",
     "parent()/parents(): `_LOWEST_PID`, once cached, is still the lowest listed PID (true on every real system: PID 1/0 never goes away); cases with a stale cache are compared with the model only",
     "int()/float() of a stat token are modelled for the decimal tokens the kernel writes",
 ]
 MANIFEST = {
-    "level_text": "Machine-checked Lean 4 proofs over a transcription of ppid_map()/children()/parent()/parents()/_raise_if_pid_reused(): for EVERY ppid map and every start-time assignment (forests, self-loops, cycles, unlisted parents, ties) children() is exactly the set of listed processes whose parent link is the caller and that are not older than it, children(recursive=True) is exactly the inductive reachability closure minus the caller, each PID once (C05_children_exact, C05_children_rec_exact, C05_nodup, C05_not_self, C05_no_older), the walk terminates on any graph (C05_terminates: a proved fuel bound; without the `seen` guard divergence is proved), parent() is the process named by ppid() unless younger (C05_parent_spec), parents() is the parent chain and terminates (C05_parents_chain, C05_parents_terminates), a caller whose incarnation is gone or whose PID was recycled gets NoSuchProcess whatever the object saw before (C05_dead_caller_NSP, C05_recycled_caller_NSP at full strength), and both stat readers recover ppid/starttime for every comm byte string (C05_stat_roundtrip). The model is tied to the code by translator facts (the three `<=`, the seen guard, the own-PID drop, the parents() cycle stop, the identity pre-checks incl. the `_gone` test, the lowest-PID stop, rfind/index facts) feeding the proof obligations cfg_good/scfg_good, and by a differential run of the real methods over fake procfs tables, random and exhaustive.",
-    "level_note": "Trusted: Lean kernel + {propext, Classical.choice, Quot.sound}; the translator; the correspondence harness; float create_time modelled by integer ticks (monotonicity checked at run time); atomic file reads; parent()/parents() on a constant table.",
+    "level_text": "Machine-checked Lean 4 proofs over a transcription of ppid_map()/children()/parent()/parents()/_raise_if_pid_reused(): for EVERY ppid map and every start-time assignment (forests, self-loops, cycles, unlisted parents, ties) children() is exactly the set of listed processes whose parent link is the caller and that are not older than it, children(recursive=True) is exactly the inductive reachability closure minus the caller, each PID once (C05_children_exact, C05_children_rec_exact, C05_nodup, C05_not_self, C05_no_older), the walk terminates on any graph (C05_terminates: a proved fuel bound; without the `seen` guard divergence is proved), parent() is the process named by ppid() unless younger (C05_parent_spec), parents() is the parent chain and terminates (C05_parents_chain, C05_parents_terminates), a caller whose incarnation is gone or whose PID was recycled gets NoSuchProcess whatever the object saw before (C05_dead_caller_NSP, C05_recycled_caller_NSP at full strength), and both stat readers recover ppid/starttime for every comm byte string (C05_stat_roundtrip). Richer world (Model/C05Dyn): any set of other processes with an unreadable or vanished stat file is left out and never fails children() (C05_unreadable_left_out[_rec], C05_unreadable_never_returned; false without the hypothesis that readable processes stay readable during the walk: C05_unreadable_mid_walk_counterexample), zombies are transparent for all calls (C05_zombie_transparent[_parents]), parents() over ANY sequence of worlds — ancestors exiting, reaped, recycled, re-parented between two parent() calls — is the step-wise chain (C05_parents_dyn_spec), each element the parent of the previous one when looked up, never younger, no PID twice (C05_parents_dyn_links), terminating within |PIDs|+2 iterations (C05_parents_dyn_terminates), ending with NoSuchProcess at an element that is no longer itself (C05_parent_dyn_dead_NSP); inside oneshot() a cached ppid is answered without identity check (C05_oneshot_parent_cached). The model is tied to the code by translator facts (the three `<=`, the seen guard, the own-PID drop, the parents() cycle stop, the identity pre-checks incl. the `_gone` test, the lowest-PID stop, rfind/index facts) feeding the proof obligations cfg_good/scfg_good, and by a differential run of the real methods over fake procfs tables, random and exhaustive.",
+    "level_note": "Trusted: Lean kernel + {propext, Classical.choice, Quot.sound}; the translator; the correspondence harness; float create_time modelled by integer ticks (monotonicity checked at run time); atomic file reads; Process(pid)+create_time() as one look-up; rich and plain model of parent()/parents() agree on static tables by test, not proof. The specification is silent (model-only comparison) where an unreadable stat file lies on the path of parent()/parents(), for an unreadable caller, for a process turning unreadable during the walk, and on a oneshot cache hit.",
     "technique": "Lean 4 proof (DFS invariant + fuel bound, induction over the reachability relation, case analysis) + translator-fed proof obligations + differential correspondence on fake procfs with exhaustive small tables",
     "design_ref": "DESIGN.md §5 C05",
 }
@@ -1028,7 +1029,10 @@ def correspond(ctx, res):
                     "12 history families (plain, table switched right after ppid_map(), kernel events scheduled at "
                     "individual look-ups during the walk, recycled caller, gone caller, gone-then-"
                     "recycled, reuse seen by is_running, stale _LOWEST_PID, a fully consumed process_iter() on an "
-                    "earlier table whose PIDs are then recycled — object built before or after) × the four calls, PRNG from VERIF_SEED; plus "
+                    "earlier table whose PIDs are then recycled — object built before or after) × the four calls, PRNG from VERIF_SEED; "
+                    "richer world: zombie rows, unreadable stat files (static, the caller's own, appearing during the walk), "
+                    "kernel events between the look-ups of parent()/parents(), calls inside oneshot() (fresh / after ppid() on an "
+                    "earlier table), objects yielded by process_iter(); plus "
                     "an exhaustive sweep of small tables and of short comm strings; non-trivial = the table has a cycle, "
                     "self-loop, tie, younger parent, unlisted parent, a history or a vanishing process, or the caller has "
                     "children; distinct = distinct (tables, caller, call)")
